@@ -14,12 +14,15 @@ def _read_ignore_file(path: Path) -> pathspec.PathSpec | None:
     cannot be read.
     """
     try:
-        text = path.read_text()
+        text = path.read_bytes().decode()
     except (OSError, UnicodeDecodeError):
         return None
-    lines = [
-        line for line in text.splitlines() if line.strip() and not line.strip().startswith("#")
-    ]
+    # As git reads the file: a UTF-8 byte order mark is skipped, a line ends at LF (or
+    # CRLF) and at nothing else (`str.splitlines` also splits at form feeds, U+2028, ...),
+    # and `#` starts a comment only in the first column.
+    text = text.removeprefix("\ufeff")
+    lines = [line.removesuffix("\r") for line in text.split("\n")]
+    lines = [line for line in lines if line.strip() and not line.startswith("#")]
     if not lines:
         return None
     return pathspec.PathSpec.from_lines("gitignore", lines)
